@@ -294,6 +294,8 @@ def i_comprehension_forms(c):
         f"sorted({src})[:2]", f"sorted({src}, key=lambda z: -z)[:2]", f"sorted({src}, reverse=True)[0] if {src} else None", f"[{src}[q] for q in range(len({src}))]",
         f"[(q, {src}[q]) for q in range(len({src}))]", f"3 in list({src})", f"3 in [1, 2, 3]", f"3 in sorted({src})", f"[q for q in range(10) if q > 2 if q < 8]", f"[q for q in range(2, 9) if q >= 4 and q != 6]",
         f"sum(q for q in range(5))", f"sum([q * q for q in range(1, 5)])", f"sum(range(len({src})))", f"len([q for q in {src}])", f"list(zip(*[{src}, {src}]))", f"[q for q, _ in zip({src}, range(3))]",
+        f"[q for q in {src} for w in [1, 2] if False]", f"[q for q in {src} if 0 for w in [1, 2]]", f"[(q, w) for q in {src} if True for w in [1, 2] if 1]", f"{{q: w for q in {src} for w in 'ab' if ''}}",
+        f"sorted({{q for q in {src} if 1 for w in () if w}})", f"[q for q in {src} if q if False]", f"list(q + w for q in {src} for w in (1,) if not None)", f"[q for q in {src} if not 0 if q > 1]",
         f"[w for _, w in enumerate({src})]", f"[w for _, w in zip(range(2), {src})]", f"list(x2 for x2 in list({src}))", f"list(itertools.chain({src}, [9]))", f"sorted(itertools.chain({src}, {src}))",
     ])
     lines.append(f"{res} = {e}")
@@ -506,9 +508,12 @@ def i_move_before_loop(c):
     out, k, v, i = c.name("acc"), c.name("k"), c.name("v"), c.name("i")
     src = r.choice(["range(3)", "range(0)", "[]", "[5, 6]"])
     inv = r.choice(["10", "len('abc')", f"{c.t()}", f"[1, 2]", f"{i} * 0 + 7", f"{out}"])
-    lines = [f"{out} = []", f"{k} = -1" if r.random() < 0.4 else "pass", f"for {i} in {src}:"]
+    bound_before = r.random() < 0.4
+    lines = [f"{out} = []", f"{k} = -1" if bound_before else "pass", f"for {i} in {src}:"]
     lines += ind([f"{k} = {inv}", f"{v} = {k} if isinstance({k}, int) else len({k})", f"{out}.append({v} + {i})"] + ([f"{k} = 0"] if r.random() < 0.2 else []))
-    lines += [f"print({out})", f"print({k} if '{k}' in dir() else 'unbound')" if False else f"print({out}[-1:] )"]
+    lines += [f"print({out})", f"print({out}[-1:] )"]
+    if bound_before:  # the loop may run zero times: then the name keeps the value it had before the loop
+        lines += [f"print('after the loop', {k})"]
     return lines
 
 
@@ -592,7 +597,34 @@ def i_while_counter(c):
 
 
 def i_invalid_escape(c):
-    return [c.r.choice(["import re\nprint(re.findall('\\d+', 'a12b3'))", "print('a\\qb'.__len__())", "print(len('\\d\\w'), '\\n'.__len__())"])]
+    """Escapes that are not valid (the rule makes the literal raw) next to valid ones in every spelling of the language reference: then the raw
+    literal is another value."""
+    r = c.r
+    bs = chr(92)
+    valid = [bs + x for x in ("x41", "101", "0", "7", "12", "N{DIGIT ONE}", "u0041", "U00000041", "\n", "t", "'", bs, "a", "v")]
+    bad = bs + r.choice(["d", "w+", "q", ".", "(", " "])
+    form = r.randrange(7)
+    if form == 0:
+        return ["import re\nprint(re.findall('\\d+', 'a12b3'))"]
+    if form == 1:
+        return ["print('a\\qb'.__len__())", "print(len('\\d\\w'), '\\n'.__len__())"]
+    rare = [bs + x for x in ("x41", "101", "0", "7", "12", "\n")]  # spellings that the rule's list of valid sequences does not contain literally
+    parts = [bad, r.choice(rare if r.random() < 0.7 else valid)] + [r.choice([bad, "z"] + valid) for _ in range(r.randint(0, 2))]
+    r.shuffle(parts)
+    body = "".join(parts)
+    q = '"' if "'" in body else r.choice(["'", '"'])
+    unicode_only = any(x in body for x in ("N{", bs + "u", bs + "U"))
+    prefix = r.choice(["", "f"]) if unicode_only else r.choice(["", "", "", "b", "f", "u"])
+    lit = f"{prefix}{q}{body}{q}"
+    if form == 2:
+        return [f"print(ascii({lit}), len({lit}))"]
+    if form == 3:
+        return [f"esc{c.n} = {lit}", f"print(ascii(esc{c.n}))"]
+    if form == 4:  # implicitly concatenated parts, one of them with a valid escape
+        return [f"print(ascii('{bad}' {q}{r.choice([v for v in valid if v != bs + chr(39)])}{q}))"]
+    if form == 5:
+        return [f"print(ascii(({lit}, '{bad}')))"]
+    return [f"print(ascii({q * 3}{bad}{q * 3}), ascii({lit}))"]
 
 
 def i_string_ops(c):
@@ -844,6 +876,34 @@ def i_repeated_calls_in_conditions(c):
     return r.choice([[f"print({e})"], [f"if {e}:"] + ind(["print('yes')"]) + ["else:"] + ind(["print('no')"])])
 
 
+def i_negation_needs_parentheses(c):
+    """Conditions that the rules negate or paste into another expression and whose top-level operator binds less tightly than `not`
+    (conditional expressions, or / and, walrus, chained comparisons): if/else returning booleans, filterfalse lambdas, swapped branches,
+    early continue."""
+    r = c.r
+    a, b, f = c.name("a"), c.name("b"), c.name("neg")
+    w = f"w{c.n}"
+    tests = [f"{a} if {b} else {a} - 1", f"{a} > 1 or {a} < -1", f"{a} > 0 and {b}", f"({b} or {a}) and {a} != 2", f"{a} if {a} > 1 else {b} if {b} else 0", f"not {a} or {b}", f"{a} in (1, 2) or {b} is None",
+             f"0 < {a} < 3 or {b}", f"({w} := {a}) > 1 or {b}", f"{a} == {b} if {a} else not {b}", f"{a} - 1 or {b} - 1", f"[{a}] * {b} or {a} > 2", f"{a} > {b} if {b} else {a} < {b}"]
+    t = r.choice(tests)
+    vals = "[(x, y) for x in (-2, 0, 1, 2, 3) for y in (0, 1, 2)]"
+    form = r.randrange(6)
+    if form == 0:
+        body = [f"if {t}:", "    return False", "else:", "    return True"]
+    elif form == 1:
+        body = [f"if {t}:", "    return False", "return True"]
+    elif form == 2:
+        body = [f"if {t}:", "    pass", "else:", f"    print('else branch', {a}, {b})", "    return 1", "return 2"]
+    elif form == 3:
+        body = ["out = []", "for k in range(2):", f"    if {t}:", f"        out.append(({a}, k))", "        out.append(k)", "        print('long branch', k)", "return out"]
+    elif form == 4:
+        lam = t.replace(f"({w} := {a})", a)
+        return [f"print(list(itertools.filterfalse(lambda {a}: {lam.replace(b, '1')}, range(-3, 5))))", f"print(list(filter(lambda {a}: {lam.replace(b, '0')}, range(-3, 5))))"]
+    else:
+        body = [f"if not ({t}):", "    return 'no'", "else:", "    return 'yes'"]
+    return [f"def {f}({a}, {b}):"] + ind(body) + ["", f"print([{f}(x, y) for x, y in {vals}])"]
+
+
 IDIOMS = {f.__name__[2:]: f for f in [
     i_list_append_loop, i_dict_loop, i_dict_literal_updates, i_collection_add_update, i_if_return_bool, i_redundant_else, i_swap_if_else, i_early_return, i_early_continue,
     i_filter_map_lambda, i_for_filter, i_comprehension_forms, i_literal_functions, i_unused_and_pointless, i_dead_code, i_singleton_compare, i_boolean_logic, i_staticmethod_class,
@@ -851,7 +911,7 @@ IDIOMS = {f.__name__[2:]: f for f in [
     i_move_before_loop, i_nested_loops, i_logging, i_negated_compare, i_lambda_redundant, i_commented_code, i_while_counter, i_invalid_escape, i_string_ops, i_numpy,
     i_const_iter_loop, i_loop_carried, i_constrained_range, i_effectful_helper, i_multiline_literal_block,
     i_if_control_flow, i_early_continue_forms, i_comprehension_chains,
-    i_shared_state, i_kept_for_effect, i_descriptors, i_repeated_calls_in_conditions,
+    i_shared_state, i_kept_for_effect, i_descriptors, i_repeated_calls_in_conditions, i_negation_needs_parentheses,
 ]}
 NEEDS = {"numpy": "numpy"}
 
